@@ -230,6 +230,9 @@ def run_insitu(case, res):
     rng = engine.rng_for(case["seed"], NUM, case["i"], 2)
     cfg = case.get("cfg") or campaign.gen_cfg(rng, noise_p=0.5, averaging_p=0.6, box_p=0.3, proj_p=0.0, reg_p=0.08, restarts_p=0.5, nmax=4, mmax=6,
                                              maxfuns=(30, 60, 120), term_p=0.1)
+    if "cfg" not in case and case["i"] % 8 == 3:
+        cfg = campaign.growing_restart_variant(cfg, np.random.default_rng([case["seed"], NUM, case["i"], 9]), nan_fault=bool(case["i"] % 16 == 3))
+        st["insitu_growing_restart_variant"] = 1
     case["cfg"] = cfg
     ctx = engine.Ctx()
     built = gen.build(cfg, ctx)
